@@ -15,6 +15,8 @@ import (
 	gosync "sync"
 	"time"
 
+	"github.com/brutella/hc"
+	"github.com/brutella/hc/accessory"
 	hccrypto "github.com/brutella/hc/crypto"
 	"github.com/brutella/hc/hap"
 	hclog "github.com/brutella/hc/log"
@@ -36,29 +38,75 @@ type wireConn struct {
 	mu    gosync.Mutex
 	wire  [][]byte
 	point func()
+	// slow: the peer stalls in the middle of every socket write (second scheduling point); a write deadline that
+	// somebody arms on the connection meanwhile expires for the write in flight, which then fails after its first half
+	slow     bool
+	deadline int // number of non-zero SetWriteDeadline calls so far
 }
+
+type timeoutError struct{}
+
+func (timeoutError) Error() string   { return "i/o timeout" }
+func (timeoutError) Timeout() bool   { return true }
+func (timeoutError) Temporary() bool { return true }
 
 func (f *wireConn) Write(b []byte) (int, error) {
 	if f.point != nil {
 		f.point()
+	}
+	if f.slow && len(b) > 1 && f.point != nil {
+		half := len(b) / 2
+		f.mu.Lock()
+		f.wire = append(f.wire, append([]byte{}, b[:half]...))
+		armedBefore := f.deadline
+		f.mu.Unlock()
+		f.point() // the peer stalls here
+		f.mu.Lock()
+		defer f.mu.Unlock()
+		if f.deadline != armedBefore {
+			return half, timeoutError{}
+		}
+		f.wire = append(f.wire, append([]byte{}, b[half:]...))
+		return len(b), nil
 	}
 	f.mu.Lock()
 	f.wire = append(f.wire, append([]byte{}, b...))
 	f.mu.Unlock()
 	return len(b), nil
 }
-func (f *wireConn) Read(b []byte) (int, error)       { return 0, fmt.Errorf("no read") }
-func (f *wireConn) Close() error                     { return nil }
-func (f *wireConn) LocalAddr() net.Addr              { return addr("10.0.0.1:1") }
-func (f *wireConn) RemoteAddr() net.Addr             { return addr("10.0.0.2:2") }
-func (f *wireConn) SetDeadline(time.Time) error      { return nil }
-func (f *wireConn) SetReadDeadline(time.Time) error  { return nil }
-func (f *wireConn) SetWriteDeadline(time.Time) error { return nil }
+func (f *wireConn) Read(b []byte) (int, error)      { return 0, fmt.Errorf("no read") }
+func (f *wireConn) Close() error                    { return nil }
+func (f *wireConn) LocalAddr() net.Addr             { return addr("10.0.0.1:1") }
+func (f *wireConn) RemoteAddr() net.Addr            { return addr("10.0.0.2:2") }
+func (f *wireConn) SetDeadline(time.Time) error     { return nil }
+func (f *wireConn) SetReadDeadline(time.Time) error { return nil }
+func (f *wireConn) SetWriteDeadline(t time.Time) error {
+	if !t.IsZero() {
+		f.mu.Lock()
+		f.deadline++
+		f.mu.Unlock()
+	}
+	return nil
+}
 
 var secret = [32]byte{7, 7, 7, 1, 2, 3}
 
 // keepAlive as a writer's only "length" makes that thread a hap.KeepAlive round instead of plain writes.
 const keepAlive = -2
+
+// notify as a writer's only "length": the thread changes a characteristic value through the application API of a
+// real (not started) hc IP transport; the transport's own notifyListener then writes the EVENT to the subscribed
+// connection. Scenarios containing it use the transport's context and a slow socket.
+const notify = -3
+
+func hasNotify(writers [][]int) bool {
+	for _, w := range writers {
+		if len(w) == 1 && w[0] == notify {
+			return true
+		}
+	}
+	return false
+}
 
 func keepAlivePayload() []byte {
 	var b bytes.Buffer
@@ -117,6 +165,41 @@ func setup(conn net.Conn) *hap.Connection {
 	sess.SetCryptographer(cs)
 	sess.Decrypter() // installs the cryptographer (as the first decrypted read does)
 	return c
+}
+
+// setupTransport builds a real hc IP transport (not started: no network), registers conn in ITS context with a
+// real secure session and subscribes the session to the switch.
+func setupTransport(c *fw.Ctx, conn net.Conn) (*hap.Connection, *accessory.Switch, error) {
+	sw := accessory.NewSwitch(accessory.Info{Name: "C08Switch"})
+	dir := filepath.Join(c.Scratch, "c08-transport")
+	t, err := hc.NewIPTransport(hc.Config{StoragePath: dir}, sw.Accessory)
+	if err != nil {
+		return nil, nil, err
+	}
+	ctx := t.VerifContext()
+	lastCtx = ctx
+	hc2 := hap.NewConnection(conn, ctx)
+	cs, err := hccrypto.NewSecureSessionFromSharedKey(secret)
+	if err != nil {
+		return nil, nil, err
+	}
+	sess := ctx.GetSessionForConnection(conn)
+	sess.SetCryptographer(cs)
+	sess.Decrypter()
+	sess.Subscribe(sw.Switch.On.Characteristic)
+	return hc2, sw, nil
+}
+
+// notifyPayload is the plaintext of the EVENT for the switch's current value (built with hc's own helper: the
+// oracle is about framing, ordering and integrity on the wire, not about the EVENT's wording).
+func notifyPayload(sw *accessory.Switch, v bool) []byte {
+	resp, err := hap.NewCharacteristicNotification(sw.Accessory, sw.Switch.On.Characteristic)
+	if err != nil {
+		return nil
+	}
+	var b bytes.Buffer
+	resp.Write(&b)
+	return hap.FixProtocolSpecifier(b.Bytes())
 }
 
 // judge applies the oracle to a captured wire.
@@ -214,7 +297,19 @@ func execute(c *fw.Ctx, writers [][]int, prefix []int, bound int) []sched.PointR
 		return true
 	}
 	fc := &wireConn{}
-	conn := setup(fc)
+	var conn *hap.Connection
+	var sw *accessory.Switch
+	if hasNotify(writers) {
+		fc.slow = true
+		var err error
+		conn, sw, err = setupTransport(c, fc)
+		if err != nil {
+			c.Infra("transport scenario: " + err.Error())
+			return nil
+		}
+	} else {
+		conn = setup(fc)
+	}
 	fc.point = func() {
 		if S.Active() {
 			S.Point(nil)
@@ -225,6 +320,10 @@ func execute(c *fw.Ctx, writers [][]int, prefix []int, bound int) []sched.PointR
 	hctx := lastCtx
 	for w, lens := range writers {
 		w, lens := w, lens
+		if len(lens) == 1 && lens[0] == notify {
+			bodies = append(bodies, func() { sw.Switch.On.SetValue(true) })
+			continue
+		}
 		if len(lens) == 1 && lens[0] == keepAlive {
 			// a keep-alive round sent by hap.KeepAlive itself (one round, see onceContext)
 			want = append(want, keepAlivePayload())
@@ -244,6 +343,9 @@ func execute(c *fw.Ctx, writers [][]int, prefix []int, bound int) []sched.PointR
 		})
 	}
 	out := S.Run(prefix, bodies)
+	if sw != nil {
+		want = append(want, notifyPayload(sw, true)) // the value is true now
+	}
 	vsync.HookLock, vsync.HookUnlock, vsync.HookRLock, vsync.HookRUnlock = nil, nil, nil, nil
 	vsync.HookCondWait, vsync.HookActive = nil, nil
 	c.Eval(1)
@@ -282,6 +384,8 @@ func scenarios(thorough bool) []scenario {
 		{[][]int{{keepAlive}, {1500}}, -1},
 		{[][]int{{300}, {keepAlive}, {1500}}, 2},
 		{[][]int{{10}, {20}, {1500}}, -1},
+		{[][]int{{1500}, {notify}}, -1},
+		{[][]int{{300}, {notify}, {40}}, 2},
 	}
 	if thorough {
 		s = append(s,
@@ -420,7 +524,7 @@ func init() {
 	fw.Register(&fw.Check{
 		ID:    "C08",
 		Level: "model_checking",
-		Rule:  "stateless exploration of goroutine interleavings under a cooperative scheduler with iterative preemption bounding: 2–5 writer goroutines × 1–3 Connection.Write calls with one- and two-frame payloads, and keep-alive rounds sent by hap.KeepAlive itself, on a real hap.Connection with a real secure session; scheduling points = every Lock of a sync.Mutex/RWMutex and every Wait of a sync.Cond in packages hap and crypto (import rewritten to a shim through go build -overlay) and every socket Write; per schedule the captured wire must decrypt front to back with counters in arrival order (reference AEAD) and be a sequence of whole payloads. 2-writer scenarios unbounded, larger ones preemption bound 2 (thorough: unbounded / 3). Plus a free-running pass of the same bodies in a -race build. distinct_nontrivial = distinct (scenario, wire record order) outcomes — more than one per scenario means writers really collided",
+		Rule:  "stateless exploration of goroutine interleavings under a cooperative scheduler with iterative preemption bounding: 2–5 writer goroutines × 1–3 Connection.Write calls with one- and two-frame payloads, keep-alive rounds sent by hap.KeepAlive itself, and EVENTs written by the notifyListener of a real (not started) IP transport after an application value change, over a socket that stalls in the middle of every write (a write deadline armed meanwhile expires for the write in flight), on a real hap.Connection with a real secure session; scheduling points = every Lock of a sync.Mutex/RWMutex and every Wait of a sync.Cond in packages hap and crypto (import rewritten to a shim through go build -overlay) and every socket Write; per schedule the captured wire must decrypt front to back with counters in arrival order (reference AEAD) and be a sequence of whole payloads. 2-writer scenarios unbounded, larger ones preemption bound 2 (thorough: unbounded / 3). Plus a free-running pass of the same bodies in a -race build. distinct_nontrivial = distinct (scenario, wire record order) outcomes — more than one per scenario means writers really collided",
 		Shards: func(t string) int {
 			if t == "thorough" {
 				return 16
